@@ -11,7 +11,7 @@ func init() {
 	Register(&PropDef{
 		ID: "C11", Title: "SMP succeeds iff the secrets match in one session",
 		Config: c11Config, Run: c11Run, MaxSteps: 120,
-		Rule: "runs = two honest parties in one session run SMP repeatedly (either initiator, with/without question, secrets equal / differing in one bit / empty / 1 byte / 4 KiB / binary, answer after a PRNG-chosen delay) with ordinary traffic, heartbeats and key rotations interleaved between the SMP steps, both versions; or (relay world) a man in the middle holding two separately keyed sessions forwards the SMP payloads unchanged; " +
+		Rule: "runs = two honest parties in one session run SMP repeatedly (either initiator, with/without question, secrets equal / differing in one bit / empty / 1 byte / 4 KiB / binary / long secrets that differ only in the last bit or just beyond 192 bytes / one a prefix of the other, answer after a PRNG-chosen delay) with ordinary traffic, heartbeats and key rotations interleaved between the SMP steps, both versions; or (relay world) a man in the middle holding two separately keyed sessions forwards the SMP payloads unchanged; " +
 			"non-trivial = at least one SMP run finished; distinct = distinct (world, secrets, step sequence) signatures",
 		Assume: []string{"one initiator at a time (simultaneous initiation is only required not to succeed with different secrets)", "the relay is the reference implementation (two refotr.Peers with Mallory's key)"},
 	})
@@ -70,7 +70,7 @@ func c11Run(rc *RunCtx) *Violation {
 	// library every time (a retry, a re-verification): the library must not change it.
 	bufs := map[[2]int][]byte{}
 	secretBuf := func(party, id int) []byte {
-		k := [2]int{party, id % 7}
+		k := [2]int{party, id % 12}
 		if b, ok := bufs[k]; ok {
 			return b
 		}
@@ -152,7 +152,7 @@ func c11Run(rc *RunCtx) *Violation {
 		}
 		switch r.Pick(wt) {
 		case 0:
-			sec := []int{0, 0, 6, 2, 3, 4, 5}[r.Intn(7)]
+			sec := []int{0, 0, 6, 2, 3, 4, 5, 4, 7, 8, 9, 10, 11}[r.Intn(13)]
 			return Step{K: "smpstart", A: r.Intn(2), B: r.Intn(2), C: sec}, true
 		case 1:
 			who := 0
@@ -164,6 +164,10 @@ func c11Run(rc *RunCtx) *Violation {
 				sec = run.secI
 				if r.Chance(1, 2) {
 					sec = []int{0, 6, 1, 2, 3, 4, 5}[r.Intn(7)]
+					// close relatives of the initiator's secret: long secrets that differ late, prefixes
+					if rel, ok := map[int][]int{4: {7, 8, 11}, 7: {4, 8}, 8: {4, 7}, 9: {10}, 10: {9}, 11: {4}}[run.secI]; ok && r.Chance(2, 3) {
+						sec = rel[r.Intn(len(rel))]
+					}
 				}
 			}
 			return Step{K: "smpanswer", A: who, C: sec}, true
